@@ -586,7 +586,7 @@ var trustedBase = []string{
 var globalAssumptions = []string{
 	"type parameters are identified by name across the methods of a generic type",
 	"user callbacks (OnEvict, OnReject, OnExit, Cost, ShouldUpdate, KeyToHash, IterValues callback) are functions of their arguments and do not re-enter the cache",
-	"memory reached through two differently typed slices does not alias (except the modelled []uint64 / *uint8 view in z/bbloom.go)",
+	"memory reached through two differently typed slices does not alias (except the modelled []uint64 / *uint8 view in z/bbloom.go; the []uint64 view of a byte slice in z/btree.go is a separate heap named by gcU64, connected to the bytes only by the stated words-survive hypothesis)",
 }
 
 func explanationFor(prop string, cr *checkResult) string {
